@@ -37,7 +37,14 @@ pub fn nonempty_partition(r: &mut Rng, d: &[u8]) -> Vec<Vec<u8>> {
 thread_local! { static DICT: std::cell::RefCell<(Vec<u64>, Vec<u64>)> = std::cell::RefCell::new((vec![], vec![])); }
 /// sizes derived from one literal `b` of the library's current source: the value itself ± 3, its half and its multiples
 fn around(r: &mut Rng, b: u64) -> u64 {
-    match r.below(12) { 0 => b.saturating_sub(2), 1 => b.saturating_sub(1), 2 | 3 => b, 4 => b + 1, 5 => b + 2, 6 => b + 3, 7 => b / 2 + r.below(3), 8 => 2 * b + r.below(2), 9 => b * (2 + r.below(4)), 10 => b + 2 * (1 + r.below(3)), _ => b * 3 + r.below(2) }
+    match r.below(12) { 0 => b.saturating_sub(2), 1 => b.saturating_sub(1), 2 | 3 => b, 4 => b + 1, 5 => b + 2, 6 => b + 3, 7 => b / (2 + r.below(3)) + r.below(3), 8 => 2 * b + r.below(2), 9 => b * (2 + r.below(4)), 10 => b + 2 * (1 + r.below(3)), _ => b * 3 + r.below(2) }
+}
+/// chooses a size-directed mode one time in `one_in`; one time in four when the current source has literals that the pinned tree
+/// did not have (a changed tree gets more size-directed cases, the unchanged tree pays nothing)
+pub fn size_mode(r: &mut Rng, one_in: u64) -> bool {
+    let novel = DICT.with(|d| !d.borrow().1.is_empty());
+    if novel && r.below(4) == 0 { return true; }
+    r.below(one_in) == 0
 }
 pub fn ladder(r: &mut Rng, max_e: u64) -> usize {
     // literals of the current source first (those not in the pinned tree's baseline with extra weight), powers of two otherwise
@@ -91,6 +98,21 @@ pub fn generate(stream: &str, n: usize, seed: u64, out: &mut dyn Write) {
         "seipayload" => gen_seipayload(&mut r, n, out),
         "enums" => gen_enums(n, out),
         "spshdr" => for _ in 0..n { gen_spshdr(&mut r, out); },
+        // one escape (or one forbidden sequence) at every offset of a long, otherwise zero-free NAL read from one contiguous chunk:
+        // whatever internal grid a reader uses (windows, blocks, look-ahead), some offset straddles it
+        "rbsp-sweep" | "stream-sweep" => {
+            for k in 0..n {
+                let total = 4200usize; let p = 2 + k % (total - 8);
+                let mut nal: Vec<u8> = vec![0x06, 0x05]; let plen = total - 2; let mut t = plen; while t >= 255 { nal.push(0xff); t -= 255; } nal.push(t as u8);
+                let hdr = nal.len(); nal.resize(hdr + plen, 0xa5); nal.push(0x80);
+                let at = hdr + p.min(plen - 6);
+                let seq: &[u8] = match (k / (total - 8)) % 3 { 0 => &[0, 0, 3, 1], 1 => &[0, 0, 3, 0, 0, 3], _ => &[0, 0, 3, 3] };
+                // (written in escaped form directly; the payload length counts RBSP bytes, so one byte per 03 is added to the NAL)
+                let mut out_nal = nal[..at].to_vec(); out_nal.extend_from_slice(seq); out_nal.extend_from_slice(&nal[at + seq.len() - seq.iter().filter(|b| **b == 3).count()..]);
+                if stream == "rbsp-sweep" { writeln!(out, "rbsp {} 1 1 D", hex_rle(&out_nal)).unwrap(); }
+                else { let mut sdat = vec![0u8, 0, 1]; sdat.extend_from_slice(&out_nal); writeln!(out, "stream B p:{} r", hex_rle(&sdat)).unwrap(); }
+            }
+        }
         _ => { eprintln!("unknown stream {}", stream); std::process::exit(2); }
     }
 }
@@ -174,7 +196,7 @@ fn gen_annexb_ladder(r: &mut Rng, out: &mut dyn Write) {
 }
 
 fn gen_annexb(r: &mut Rng, out: &mut dyn Write) {
-    if r.below(25) == 0 { return gen_annexb_ladder(r, out); }
+    if size_mode(r, 25) { return gen_annexb_ladder(r, out); }
     let maxlen = if r.below(10) == 0 { 400 } else { 40 };
     let (d, parts) = if r.below(2) == 0 { directed_annexb(r) } else { let d = stream_bytes(r, maxlen, &[0, 0, 0, 1, 1, 2, 3, 0x65]); let p = partition(r, &d); (d, p) };
     let _ = &d;
@@ -304,7 +326,7 @@ fn gen_refnal_ladder(r: &mut Rng, out: &mut dyn Write) {
 }
 
 fn gen_refnal(r: &mut Rng, out: &mut dyn Write) {
-    if r.below(25) == 0 { return gen_refnal_ladder(r, out); }
+    if size_mode(r, 25) { return gen_refnal_ladder(r, out); }
     let ml = if r.below(4) == 0 { 300 } else { 30 };
     let mut d = stream_bytes(r, ml, &[0, 0, 0, 3, 3, 1, 2, 4, 0x55]);
     if d.is_empty() { d.push((r.next() & 0xff) as u8); }
@@ -343,7 +365,7 @@ fn gen_acc_ladder(r: &mut Rng, out: &mut dyn Write) {
 }
 
 fn gen_acc(r: &mut Rng, out: &mut dyn Write) {
-    if r.below(60) == 0 { return gen_acc_ladder(r, out); }
+    if size_mode(r, 60) { return gen_acc_ladder(r, out); }
     let nsteps = 1 + r.below(12);
     let mut steps = vec![];
     let policy = r.below(4); // 0: always buffer, 1: always ignore, else mixed
@@ -369,6 +391,14 @@ fn gen_sei(r: &mut Rng, out: &mut dyn Write) {
         let mut nal = vec![0x06u8]; nal.extend(escape(&d));
         let chunks = if r.flag() { vec![nal.clone()] } else { nonempty_partition(r, &nal) };
         writeln!(out, "sei {} {}", join_chunks(&chunks), (r.below(4) != 0) as u8).unwrap(); return;
+    }
+    if size_mode(r, 40) {
+        // payload sizes from the ladder (block-wise copies of the payload), then another message
+        let n = ladder(r, 16); sei_u32(&mut d, r.below(6)); sei_u32(&mut d, n as u64); d.extend(filler(r, n, true));
+        sei_u32(&mut d, 1); sei_u32(&mut d, 2); d.push(0x33); d.push(0x44); d.push(0x80);
+        let mut nal = vec![0x06u8]; nal.extend(escape(&d));
+        let chunks = if r.flag() { vec![nal.clone()] } else { nonempty_partition(r, &nal) };
+        writeln!(out, "sei {} 1", join_chunks_rle(&chunks)).unwrap(); return;
     }
     if r.below(20) == 0 {
         // a later message whose type is coded FF…FF 80 (128 + 255k), the data cut right after the type or after the size
@@ -415,7 +445,7 @@ fn gen_avcc(r: &mut Rng, out: &mut dyn Write) {
     // each constraint flag set or clear
     let prof = if r.below(3) == 0 { r.next() as u8 } else { r.pick8(&[66, 66, 77, 88, 100, 100, 110, 122, 244, 44, 83, 86, 118, 128, 138, 139, 134, 135]) };
     let lvl = if r.below(4) == 0 { r.next() as u8 } else { r.pick8(&[9, 10, 11, 11, 12, 13, 20, 21, 22, 30, 31, 32, 40, 41, 42, 50, 51, 52, 60, 61, 62]) };
-    let mut d = vec![if r.below(8) == 0 { r.pick8(&[0, 2, 255]) } else { 1 }, prof, if r.flag() { r.next() as u8 } else { r.pick8(&[0, 0x10, 0x80, 0xc0, 0xe0, 0xf0, 0x08, 0x04, 0x14, 0xff, 0xef]) }, lvl, 0xfc | r.below(4) as u8];
+    let mut d = vec![if r.below(8) == 0 { r.pick8(&[0, 2, 255]) } else { 1 }, prof, if r.flag() { r.next() as u8 } else { r.pick8(&[0, 0, 0x10, 0x80, 0xc0, 0xe0, 0xf0, 0x08, 0x04, 0x14, 0xff, 0xef]) }, lvl, 0xfc | r.below(4) as u8];
     if r.below(10) == 0 { d[4] = r.next() as u8; }
     // parameter sets: mostly real ones so that create_context gets past the first NAL
     let mk_sps = |r: &mut Rng, prof: u8, compat: u8, lvl: u8| -> Vec<u8> {
@@ -436,7 +466,7 @@ fn gen_avcc(r: &mut Rng, out: &mut dyn Write) {
     let (p, c, l) = (d[1], d[2], d[3]);
     for _ in 0..nsps {
         let nal = match r.below(8) { 0 => vec![], 1 => vec![r.pick8(&[0x67, 0x68, 0xe7, 0x07])], 2 => { let mut v = vec![r.pick8(&[0x67, 0x67, 0x68, 0xe7])]; for _ in 0..r.below(5) { v.push(r.next() as u8); } v }
-            3 => { let pr = r.pick8(&[0x42, 0x64]); mk_sps(r, pr, c, l) } _ => { let n = mk_sps(r, p, c, l); raw_zeros(r, n) } };
+            3 => { let pr = r.pick8(&[0x42, 0x64]); mk_sps(r, pr, c, l) } 4 => { let c2 = if r.flag() { c ^ 0x10 } else { r.next() as u8 }; mk_sps(r, p, c2, l) } _ => { let n = mk_sps(r, p, c, l); raw_zeros(r, n) } };
         let nal = match long_len { Some(ll) if entry_no == long_at => pad_to(nal, ll), _ => nal }; entry_no += 1;
         d.push((nal.len() >> 8) as u8); d.push(nal.len() as u8); d.extend(nal);
     }
@@ -446,7 +476,13 @@ fn gen_avcc(r: &mut Rng, out: &mut dyn Write) {
         let nal = match long_len { Some(ll) if entry_no == long_at => pad_to(nal, ll), _ => nal }; entry_no += 1;
         d.push((nal.len() >> 8) as u8); d.push(nal.len() as u8); d.extend(nal);
     }
-    for _ in 0..r.below(3) { d.push(r.next() as u8); }
+    if r.below(4) == 0 {
+        // ISO/IEC 14496-15 tail of the High profiles: reserved bits set, chroma_format, bit depths, numOfSequenceParameterSetExt + entries
+        d.push(0xfc | r.below(4) as u8); d.push(0xf8 | r.below(8) as u8); d.push(0xf8 | r.below(8) as u8);
+        let next = r.below(3) as u8; d.push(next);
+        for _ in 0..next { let l = r.below(6) as usize; d.push(0); d.push(l as u8); for _ in 0..l { d.push(r.next() as u8); } }
+        if r.flag() { let cut = r.below(8) as usize; let l = d.len().saturating_sub(cut); d.truncate(l); }
+    } else { for _ in 0..r.below(3) { d.push(r.next() as u8); } }
     if r.below(3) == 0 { let l = r.below(d.len() as u64 + 1) as usize; d.truncate(l); }
     if r.below(50) == 0 { let i = r.below(d.len().max(1) as u64) as usize; if i < d.len() { d[i] ^= 1 << r.below(8); } }
     writeln!(out, "avcc {}", hex(&d)).unwrap();
@@ -538,7 +574,7 @@ fn rng_se(r: &mut Rng, f: &mut Faults, lo: i64, hi: i64) -> i64 {
     match r.below(6) { 0 => lo, 1 => hi, _ => lo + r.below((hi - lo + 1) as u64) as i64 }
 }
 
-fn small_ue(r: &mut Rng) -> u64 { match r.below(10) { 0 => r.pick(&[255, 256, 65535, 65536, (1 << 31) - 1, 1 << 31, (1u64 << 32) - 2]), 1..=2 => r.below(40), _ => r.below(4) } }
+fn small_ue(r: &mut Rng) -> u64 { match r.below(10) { 0 => r.pick(&[255, 256, 65535, 65536, (1 << 31) - 2, (1 << 31) - 1, 1 << 31, (1 << 31) + 1, (1u64 << 32) - 3, (1u64 << 32) - 2]), 1..=2 => r.below(40), _ => r.below(4) } }
 fn se_val(r: &mut Rng, lim: i64) -> i64 { match r.below(8) { 0 => lim, 1 => -lim, 2 => lim + 1, 3 => -lim - 1, 4 => r.pick(&[(1 << 31) - 1]) as i64 * if r.flag() { 1 } else { -1 }, _ => r.below(2 * lim as u64 + 1) as i64 - lim } }
 
 fn scaling_list(w: &mut W, r: &mut Rng, size: usize, fault: bool) {
@@ -581,12 +617,14 @@ pub fn gen_sps(r: &mut Rng) -> (Vec<u8>, SpsInfo) {
     if poc_type == 0 { log2poc = if f.hit(r, 5) { 13 } else { r.below(13) }; w.ue(log2poc); }
     if poc_type == 1 { always_zero = r.flag(); w.b(always_zero).se(se_val(r, 100)).se(se_val(r, 100)); let n = if f.hit(r, 4) { 256 } else { r.pick(&[0, 1, 2, 3, 7, 255]) }; w.ue(n); for _ in 0..n { w.se(se_val(r, 5)); } }
     let mr = r.below(5); w.ue(mr).b(r.flag());
-    let wd = if r.below(8) == 0 { r.pick(&[65535, 65536, (1u64 << 32) - 2, 1 << 27, (1 << 28) - 1]) } else { r.below(30) };
+    let wd = if r.below(8) == 0 { r.pick(&[65535, 65536, (1u64 << 32) - 2, 1 << 27, (1 << 28) - 1, (1 << 31) - 2, (1 << 31) - 1, 1 << 31, 199_999_999, 199_999_999, 150_000_000]) } else { r.below(30) };
     let ht = if r.below(8) == 0 { r.pick(&[65535, 65536, (1u64 << 32) - 2, 1 << 27, (1 << 27) - 1]) } else { r.below(30) };
     w.ue(wd).ue(ht);
     let fmo = r.flag(); w.b(fmo); if !fmo { w.b(r.flag()); }
     w.b(r.flag());
-    let crop = r.below(3) == 0; w.b(crop); if crop { for _ in 0..4 { w.ue(match r.below(4) { 0 => small_ue(r), 1 => r.below(3) + (wd.min(1000) + 1) * 4, _ => r.below(5) }); } }
+    let crop = r.below(3) == 0 || (wd > (1 << 26) && r.flag()); w.b(crop); if crop { for k in 0..4 { let side = if k < 2 { wd } else { ht }; let opt = if side > (1 << 26) && r.below(3) != 0 { 2 } else { r.below(5) }; w.ue(match opt { 0 => small_ue(r), 1 => r.below(3) + (wd.min(1000) + 1) * 4,
+        // a share of 30..100 % of the picture side in crop units (two such offsets each fit, their sum may not - also beyond 2^32)
+        2 => (((side + 1) * 8) as u128 * (30 + r.below(71)) as u128 / 100).min((1u128 << 32) - 2) as u64, _ => r.below(5) }); } }
     let vui = r.below(2) == 0; w.b(vui);
     let (mut nal_hrd, mut vcl_hrd, mut psp) = (None, None, false);
     if vui {
@@ -600,7 +638,7 @@ pub fn gen_sps(r: &mut Rng) -> (Vec<u8>, SpsInfo) {
             if h {
                 let cnt = if f.hit(r, 4) { 32 } else { r.pick(&[0, 0, 1, 2, 31]) }; w.ue(cnt); w.u(4, r.below(16)).u(4, r.below(16));
                 for _ in 0..=cnt { w.ue(small_ue(r)).ue(small_ue(r)).b(r.flag()); }
-                let (a, b, c, d) = (r.pick(&[0, 4, 23, 31]), r.pick(&[0, 4, 23, 31]), r.pick(&[0, 4, 23, 31]), r.pick(&[0, 1, 5, 24, 31]));
+                let (a, b, c, d) = if r.below(6) == 0 { (31, 31, 31, 31) } else { (r.pick(&[0, 4, 23, 31]), r.pick(&[0, 4, 23, 31]), r.pick(&[0, 4, 23, 31]), r.pick(&[0, 1, 5, 24, 31])) };
                 w.u(5, a).u(5, b).u(5, c).u(5, d);
                 if k == 0 { nal_hrd = Some((cnt, a, b, c, d)); } else { vcl_hrd = Some((cnt, a, b, c, d)); }
             }
@@ -632,9 +670,12 @@ pub fn gen_pps(r: &mut Rng, spss: &[SpsInfo]) -> (Vec<u8>, PpsInfo) {
         let t = if f.hit(r, 8) { 7 } else { r.below(7) }; w.ue(t);
         match t {
             0 => { for _ in 0..=n { w.ue(if f.hit(r, 4) { size.min((1u64 << 32) - 2) } else if r.below(6) == 0 { size - 1 } else { r.below(size.min(50)) }); } }
-            2 => { for _ in 0..n { let a = r.below(size.min(60) + 1); let b = if f.hit(r, 4) { r.pick(&[size + 1, a.saturating_sub(1)]) } else { (a + r.below(4)).min(size) }; w.ue(a).ue(b.min((1u64 << 32) - 2)); } }
+            2 => { for _ in 0..n {
+                let a = if r.below(8) == 0 { r.pick(&[2, (1 << 31) - 1, 1 << 31, (1u64 << 32) - 3]).min(size) } else { r.below(size.min(60) + 1) };
+                let b = if f.hit(r, 4) { r.pick(&[size + 1, a.saturating_sub(1)]) } else if r.below(8) == 0 { r.pick(&[size, (1u64 << 32) - 2, (1u64 << 32) - 3]).min(size).max(a) } else { (a + r.below(4)).min(size) }; w.ue(a).ue(b.min((1u64 << 32) - 2)); } }
             3 | 4 | 5 => { w.b(r.flag()).ue(if f.hit(r, 3) { size.min((1u64 << 32) - 2) } else if r.below(4) == 0 { size - 1 } else { r.below(size.min(50)) }); }
-            6 if r.below(25) == 0 => { big = true; let cnt = r.pick(&[65535, 65536, 65537, 70000, 139263]); w.ue(cnt); let bits = [0, 1, 2, 2, 3, 3, 3, 3][n as usize]; for _ in 0..=cnt { w.u(bits, if bits == 0 { 0 } else { r.below(n + 1) }); } }
+            6 if size_mode(r, 20) => { big = true; let cnt = if r.flag() { r.pick(&[65535, 65536, 65537, 70000, 139263]) } else { (ladder(r, 17) as u64).min(150_000).max(2) - 1 }; w.ue(cnt); let bits = [0, 1, 2, 2, 3, 3, 3, 3][n as usize]; for _ in 0..=cnt { w.u(bits, if bits == 0 { 0 } else { r.below(n + 1) }); } }
+            6 if r.below(6) == 0 && size > 3000 => { let cnt = size - 1; w.ue(cnt.min((1u64 << 32) - 2)); let bits = [0, 1, 2, 2, 3, 3, 3, 3][n as usize]; for _ in 0..r.below(40) { w.u(bits, 0); } }
             6 => { let cnt = if f.hit(r, 3) { r.pick(&[size.min(3000), 1 << 16, 1 << 24, (1 << 31) - 1, (1u64 << 32) - 2]) } else if r.below(6) == 0 { (size - 1).min(3000) } else { r.below(12).min(size - 1) }; w.ue(cnt); let bits = [0, 1, 2, 2, 3, 3, 3, 3][n as usize]; for _ in 0..=cnt.min(3000) { w.u(bits, if bits == 0 { 0 } else if f.hit(r, 9) { (n + 1).min((1 << bits) - 1) } else { r.below(n + 1) }); } }
             _ => {}
         }
@@ -681,9 +722,10 @@ pub fn gen_slice(r: &mut Rng, spss: &[SpsInfo], ppss: &[PpsInfo]) -> (u8, Vec<u8
     for _ in 0..lists { let mf = r.below(3) == 0; w.b(mf); if mf { for _ in 0..r.below(4) { let idc = if f.hit(r, 8) { 4 } else { r.below(3) }; w.ue(idc); w.ue(small_ue(r)); } w.ue(3); } }
     if (p.wp && (fam == 0 || fam == 3)) || (p.wb == 1 && fam == 1) {
         let chroma = !s.separate && s.chroma_idc != 0;
-        w.ue(if f.hit(r, 8) { 8 } else { r.below(8) }); if chroma { w.ue(if f.hit(r, 8) { 8 } else { r.below(8) }); }
+        let ld = if f.hit(r, 8) { 8 } else { r.below(8) }; w.ue(ld); let cd = if f.hit(r, 8) { 8 } else { r.below(8) }; if chroma { w.ue(cd); }
+        let defaults = r.below(4) == 0;   // explicit entries that restate the inferred values (weight 2^denom, offset 0)
         let heavy = if want_heavy || r.below(8) == 0 { Some(8 + r.below(24)) } else { None };   // first k entries with every weight, the rest bare flags
-        if l0 <= 31 { for e in 0..=l0 { let lf = match heavy { Some(k) => e < k, None => r.flag() }; w.b(lf); if lf { let a = if heavy.is_some() { r.pick(&[127, 126, 100]) as i64 * if r.flag() { 1 } else { -1 } } else { rng_se(r, &mut f, -128, 127) }; let b = rng_se(r, &mut f, -128, 127); w.se(a).se(b); } if chroma { let cf = match heavy { Some(k) => e < k, None => r.flag() }; w.b(cf); if cf { for _ in 0..4 { let a = rng_se(r, &mut f, -128, 127); w.se(a); } } } } }
+        if l0 <= 31 { for e in 0..=l0 { let lf = match heavy { Some(k) => e < k, None => r.flag() }; w.b(lf); if lf { let a = if defaults && r.below(8) != 0 { 1i64 << ld.min(7) } else if heavy.is_some() { r.pick(&[127, 126, 100]) as i64 * if r.flag() { 1 } else { -1 } } else { rng_se(r, &mut f, -128, 127) }; let b = if defaults && r.below(8) != 0 { 0 } else { rng_se(r, &mut f, -128, 127) }; w.se(a).se(b); } if chroma { let cf = match heavy { Some(k) => e < k, None => r.flag() }; w.b(cf); if cf { for k in 0..4 { let a = if defaults && r.below(8) != 0 { if k % 2 == 0 { 1i64 << cd.min(7) } else { 0 } } else { rng_se(r, &mut f, -128, 127) }; w.se(a); } } } } }
     }
     if ref_idc != 0 {
         if nal_type == 5 { w.b(r.flag()).b(r.flag()); }
@@ -714,11 +756,11 @@ fn gen_syntax(r: &mut Rng, n: usize, out: &mut dyn Write, derived: bool) {
     let mut run = Runner::new();
     while count < n {
         writeln!(out, "reset").unwrap(); run.run_line("reset"); count += 1;
-        let mut spss = vec![]; let mut ppss: Vec<PpsInfo> = vec![];
+        let mut spss = vec![]; let mut ppss: Vec<PpsInfo> = vec![]; let mut last_sps: Option<Vec<u8>> = None; let mut last_pps: Option<Vec<u8>> = None;
         for _ in 0..(1 + r.below(2)) {
             let (mut d, info) = gen_sps(r);
             if r.below(12) == 0 { mutate(r, &mut d); }
-            let line = format!("sps {}", hex(&d)); writeln!(out, "{}", line).unwrap(); count += 1;
+            let line = format!("sps {}", hex(&d)); writeln!(out, "{}", line).unwrap(); count += 1; last_sps = Some(d.clone());
             if derived { writeln!(out, "derived {}", hex(&d)).unwrap(); count += 1; }
             if run.run_line(&line).starts_with("Ok") { spss.retain(|q: &SpsInfo| q.id != info.id); spss.push(info); }
         }
@@ -726,10 +768,35 @@ fn gen_syntax(r: &mut Rng, n: usize, out: &mut dyn Write, derived: bool) {
         for _ in 0..(1 + r.below(3)) {
             let (mut d, info) = gen_pps(r, &spss);
             let mutated = r.below(12) == 0; if mutated { mutate(r, &mut d); }
-            let line = format!("pps {}", hex(&d)); writeln!(out, "{}{}", line, if info.big_ok && !mutated { " | ~^Ok\\(" } else { "" }).unwrap(); count += 1;
+            let line = format!("pps {}", hex(&d)); writeln!(out, "{}{}", line, if info.big_ok && !mutated { " | ~^Ok\\(" } else { "" }).unwrap(); count += 1; if d.len() < 200 { last_pps = Some(d.clone()); }
             if run.run_line(&line).starts_with("Ok") { ppss.retain(|q: &PpsInfo| q.id != info.id); ppss.push(info); }
         }
         if ppss.is_empty() { continue; }
+        if r.below(4) == 0 {
+            // a parameter set sent again with a single bit changed (a redefinition that differs in one flag or one small value), then what is stored
+            for _ in 0..(1 + r.below(2)) {
+                let which = r.flag(); let prev = if which { last_pps.clone() } else { last_sps.clone() };
+                if let Some(mut d) = prev { if d.len() > 2 {
+                    let nbits = d.len() * 8; let i = if r.flag() { nbits - 9 - r.below((nbits as u64 - 9).min(40)) as usize } else { r.below(nbits as u64 - 8) as usize };
+                    d[i / 8] ^= 0x80 >> (i % 8);
+                    let line = format!("{} {}", if which { "pps" } else { "sps" }, hex(&d)); writeln!(out, "{}", line).unwrap(); count += 1; run.run_line(&line);
+                } }
+            }
+            writeln!(out, "dump").unwrap(); count += 1;
+        }
+        if r.below(150) == 0 {
+            // every PPS id once (256 distinct ids in one context), some sent again, the last one in particular; then what is stored
+            let s0 = spss[0].clone(); let mut order: Vec<u64> = (0..256).collect(); for k in (1..256).rev() { let j = r.below(k as u64 + 1) as usize; order.swap(k, j); }
+            let mk = |r: &mut Rng, id: u64| -> String { let mut w = W::default(); w.ue(id).ue(s0.id).b(false).b(false).ue(0).ue(0).ue(r.below(4)).b(false).u(2, 0).se(0).se(0).se(0).b(false).b(r.flag()).b(false); format!("pps {}", hex(&w.trail())) };
+            for id in &order { let l = mk(r, *id); writeln!(out, "{}", l).unwrap(); count += 1; run.run_line(&l); }
+            for id in [order[255], order[0], order[255], order[128]] { let l = mk(r, id); writeln!(out, "{}", l).unwrap(); count += 1; run.run_line(&l); }
+            writeln!(out, "dump").unwrap(); count += 1;
+            // slices naming the ids that were sent again (and one that was not)
+            for id in [order[255], order[0], order[7], order[255]] {
+                let info = PpsInfo { id, sps: 0, entropy: false, bottom: false, l0: 0, wp: false, wb: 0, qs: 0, deblock: false, redundant: false, big_ok: false };
+                let (hdr, d) = gen_slice(r, &spss[..1], &[info]); writeln!(out, "slice {:02x} {}", hdr, hex(&d)).unwrap(); count += 1; }
+            continue;
+        }
         if r.below(3) == 0 {
             // a parameter set arriving after the PPS that refer to it: same id redefined (the PPS stay), or a new id
             writeln!(out, "dump").unwrap(); count += 1;
@@ -788,7 +855,9 @@ fn gen_nal(r: &mut Rng, n: usize, out: &mut dyn Write) {
     while count < n {
         writeln!(out, "reset").unwrap(); run.run_line("reset"); count += 1;
         let (sd, sinfo) = gen_sps(r);
-        let spsnal = to_nal(0x67, &sd);
+        let mut spsnal = to_nal(0x67, &sd);
+        // bytes behind rbsp_trailing_bits: cabac_zero_words are legal, anything else is not - also behind an emulation prevention byte
+        if r.below(3) == 0 { while spsnal.last() == Some(&0) || spsnal.last() == Some(&3) { spsnal.pop(); } spsnal.extend_from_slice(match r.below(4) { 0 => &[0, 0, 3, 1, 0xab], 1 => &[0, 0, 3, 0, 0, 3, 0x80], 2 => &[0, 0, 3], _ => &[0, 0x80] }); }
         let line = format!("nal {} 1", hex(&spsnal));
         let ok = run.run_line(&line).starts_with("sps:Ok");
         emit_prefixes(r, &spsnal, out, &mut count, false);
@@ -796,7 +865,8 @@ fn gen_nal(r: &mut Rng, n: usize, out: &mut dyn Write) {
         if !ok { continue; }
         let spss = vec![sinfo];
         let (pd, pinfo) = gen_pps(r, &spss);
-        let ppsnal = to_nal(0x68, &pd);
+        let mut ppsnal = to_nal(0x68, &pd);
+        if r.below(4) == 0 { while ppsnal.last() == Some(&0) || ppsnal.last() == Some(&3) { ppsnal.pop(); } ppsnal.extend_from_slice(match r.below(4) { 0 => &[0, 0, 3, 1, 0xab], 1 => &[0, 0, 3, 0, 0, 3, 0x80], 2 => &[0, 0, 3], _ => &[0, 0x80] }); }
         let line = format!("nal {} 1", hex(&ppsnal));
         let ok = run.run_line(&line).starts_with("pps:Ok");
         emit_prefixes(r, &ppsnal, out, &mut count, false);
@@ -891,15 +961,17 @@ fn gen_seipayload(r: &mut Rng, n: usize, out: &mut dyn Write) {
             let hrd = s.nal_hrd.or(s.vcl_hrd);
             if let Some((_, _, cpb, dpb, _)) = hrd { w.u(cpb as u32 + 1, r.next() & ((1u64 << (cpb + 1)) - 1)).u(dpb as u32 + 1, r.next() & ((1u64 << (dpb + 1)) - 1)); }
             if s.pic_struct_present {
-                let ps = if r.below(10) == 0 { r.pick(&[9, 15]) } else { r.below(9) }; w.u(4, ps);
+                let ps = if r.below(10) == 0 { r.pick(&[9, 15]) } else if r.below(3) == 0 { r.pick(&[5, 6, 8]) } else { r.below(9) }; w.u(4, ps);
                 let nts = [1, 1, 1, 2, 2, 3, 3, 2, 3, 0, 0, 0, 0, 0, 0, 0][ps as usize];
                 let tol = hrd.map(|h| h.4).unwrap_or(24);
+                let longest = r.below(5) == 0;   // every timestamp present, in the longest coding (no full_timestamp_flag, all three flags set)
                 for _ in 0..nts {
-                    let f = r.below(4) != 0; w.b(f);
+                    let f = longest || r.below(4) != 0; w.b(f);
                     if f {
                         w.u(2, r.below(4)).b(r.flag()).u(5, r.below(32));
-                        let full = r.flag(); w.b(full).b(r.flag()).b(r.flag()).u(8, r.below(256));
+                        let full = !longest && r.flag(); w.b(full).b(r.flag()).b(r.flag()).u(8, r.below(256));
                         if full { w.u(6, r.below(64)).u(6, r.below(64)).u(5, r.below(32)); }
+                        else if longest { w.b(true).u(6, r.below(64)).b(true).u(6, r.below(64)).b(true).u(5, r.below(32)); }
                         else { let sf = r.flag(); w.b(sf); if sf { w.u(6, r.below(64)); let mf = r.flag(); w.b(mf); if mf { w.u(6, r.below(64)); let hf = r.flag(); w.b(hf); if hf { w.u(5, r.below(32)); } } } }
                         if tol > 0 { let v = match r.below(4) { 0 => -(1i64 << (tol - 1)), 1 => (1i64 << (tol - 1)) - 1, 2 => -1, _ => (r.next() % (1u64 << tol)) as i64 - (1i64 << (tol - 1)) }; w.i(tol as u32, v); }
                     }
